@@ -358,6 +358,43 @@ def run_login_writers(ctx):
     return n
 
 
+def _expect_gate_semantic(g, fn):
+    """read_*_body(buf, size, opcode) interpreted with M::OPCODE = 0x1234 for the received opcodes 0x1234 (must decode exactly once and return
+    what the decoder returned) and 0x1235, 0x34, 0x11234, 0 (must not decode and must return the Opcode error carrying the opcode received).
+    -> None (holds), a message (violated), or "shape" (not interpretable: the structural rule decides)"""
+    from ..minieval import Mini, Unsupported, Panic
+    prm = [q[1] for q in fn["params"] if H.tag(q) == "bind"]
+    if "opcode" not in prm or len(prm) != 3:
+        return "shape"
+    FB = {c: g.f(c) for c in ("wow_world_messages", "wow_world_base")}
+    for opc in (0x1234, 0x1235, 0x34, 0x11234, 0):
+        calls = []
+        m = Mini(FB, "wow_world_messages")
+        m.consts = {"crate::traits::Message::OPCODE": 0x1234, "crate::Message::OPCODE": 0x1234}
+
+        def rb(a, calls=calls):
+            calls.append(a)
+            return ("Ok", ("decoded",))
+        m.overrides = {"::Message::read_body": rb, "::opcode_to_name": lambda a: "name"}
+        args = [("buf",) if q != "opcode" else opc for q in prm]
+        args = [a if a != ("buf",) or prm[i] == prm[0] else 100 for i, a in enumerate(args)]
+        try:
+            res = m.call_fn(fn["path"], args)
+        except (Unsupported, Panic):
+            return "shape"
+        if opc == 0x1234:
+            if len(calls) != 1 or res != ("Ok", ("decoded",)):
+                return f"a frame carrying M::OPCODE is not decoded exactly once by M::read_body (calls: {len(calls)}, result {str(res)[:80]})"
+        else:
+            if calls:
+                return f"a frame carrying opcode {opc:#x} is decoded as M although M::OPCODE is 0x1234"
+            ok = isinstance(res, tuple) and res[0] == "Err" and isinstance(res[1], tuple) and res[1][0] in ("struct", "variant") and str(res[1][1]).endswith("ExpectedOpcodeError::Opcode") \
+                and isinstance(res[1][2], dict) and res[1][2].get("opcode") == opc
+            if not ok:
+                return f"for the received opcode {opc:#x} (M::OPCODE = 0x1234) the helper does not return ExpectedOpcodeError::Opcode carrying that opcode: {str(res)[:120]}"
+    return None
+
+
 def run_expect_gate(ctx):
     """frame.expect-gate (C02, C04): the body helpers behind the typed world expect_* functions decode M exactly when the opcode
     of the frame equals M::OPCODE, and otherwise return an Opcode error carrying the opcode that was received"""
@@ -374,6 +411,12 @@ def run_expect_gate(ctx):
                 continue
             n += 1
             key = f"{exp}|{name}"
+            sem = _expect_gate_semantic(st["g"], fn)
+            if sem is None:
+                continue  # decided by interpretation
+            if sem != "shape":
+                ctx.violate("frame.expect-gate", f"{key}|gate", f"{exp} {name}: {sem}", fn["file"], fn["line"])
+                continue
             body = fn["hir"]
             prm = [q[1] for q in fn["params"] if H.tag(q) == "bind"]
             if "opcode" not in prm:
